@@ -216,6 +216,10 @@ def check_tree(ctx, node, name, m=None, rm=None):
         if rb.partition('~')[0] != m.canonicalize_role(base):
             ctx.fail('canonicalize_roles!=canonicalize_role', detail=dict(det, role=ra, got=rb,
                                                                          role_level=m.canonicalize_role(base)))
+    if name == 'default':
+        ok, tn = ctx.call(transform.canonicalize_roles, tree, None, clause='canonicalize_roles(None)')
+        if ok and tn.node != t2.node:
+            ctx.fail('canonicalize_roles(model=None)!=default-model', detail=det)
     ok, t3 = ctx.call(transform.canonicalize_roles, t2, m, clause='canonicalize_roles')
     if ok and t3.node != t2.node and not name.startswith('chain'):
         ctx.fail('canonicalize_roles:idempotent', detail=dict(det, twice=repr(t3.node)[:500]))
